@@ -21,6 +21,9 @@ CHECKS = {
  "C05": dict(text="Coq theorems (Props/C05.v) about the transcription of CycleDetector (root comparison, stack skip, vertex-set de-duplication) over an arbitrary successor function: every reported chain is a real path of containment links back to the named type with a witnessing field per link; every type on a containment cycle is named by some report; acyclic programs get no report; the detector's descent order equals the declarative 'mentions under any nest of Sequence/Dictionary key,value/Result' relation; for alias-mention and inheritance graphs a loop is found iff a node reaches itself; the alias seen-list walk terminates. Tied to the real compiler by exhaustive small containment graphs with every wrapper form, all alias and inheritance graphs over <= 3 nodes (sampled/all over 4), random graphs up to 10 nodes, in isolated workers.",
              note="Trusted: Coq kernel, extraction, harness, the Python generator of Slice text from graphs. Stack depth/wall-clock are runtime; the model gives depth bounds only.",
              tech="Coq soundness+completeness proof of the cycle detector + bounded-exhaustive graph correspondence", ref="DESIGN.md §7 C05"),
+ "C03": dict(text="Coq theorems (Props/C03.v): the lookup walk equals 'first hit over scope, enclosing scopes, then global' (global only for a leading '::'); a reference designating a non-alias binds exactly that entity iff its kind fits the position; aliases are transparent (final non-alias target, attributes of every link in chain order) for every repeat-free chain; a reference designating nothing or a wrong kind is an error, never a binding; resolution terminates; unique keys make lookups independent of insertion order and every entity retrievable by its scoped name. Tied to the real patcher by bounded-exhaustive module/name/spelling arrangements, alias chains with attributes and random multi-file programs, comparing every reference's bound definition, attributes and error code.",
+             note="Trusted: Coq kernel, extraction, harness AST dump, the generator's table construction order. E019 reports are not compared (only per-reference outcome and E017/E033).",
+             tech="Coq proof (lookup = outward scope search; alias transparency by induction on chains) + arrangement-exhaustive correspondence", ref="DESIGN.md §7 C03"),
 }
 NOT_APPLICABLE = {}
 def main():
